@@ -53,6 +53,7 @@ def verify(wt, diff, demo):
 
 
 def detect(sdir, tier, seeds):
+    sdir = os.path.abspath(sdir)
     meta = json.load(open(os.path.join(sdir, "meta.json")))
     prop = meta["property"]
     patch = os.path.join(sdir, "patch.diff")
@@ -75,6 +76,11 @@ def detect(sdir, tier, seeds):
     finally:
         sh(["git", "-C", "/repo", "checkout", "--", "."])
     det = all(r["exit"] == 1 and r["violation_lines"] > 0 for r in results)
+    meta.setdefault("detection_runs", [])
+    meta["detection_runs"] = [r for r in meta["detection_runs"] if not (r["tier"] == tier and r["seed"] in seeds)] + results
+    meta["detection"] = {"detected_by": "./check %s" % prop, "detected": all(r["exit"] == 1 and r["violation_lines"] > 0 for r in meta["detection_runs"]),
+                         "signatures": sorted({s.replace("signature: ", "") for r in meta["detection_runs"] for s in r["signatures"]})}
+    json.dump(meta, open(os.path.join(sdir, "meta.json"), "w"), indent=1)
     print(json.dumps({"seeded": os.path.basename(sdir), "property": prop, "detected": det, "runs": results}))
     return 0 if det else 1
 
